@@ -35,7 +35,8 @@ NAMES = ['A', 'B', 'C', 'D']
 def spec_strategy():
     def body(rank):
         return st.fixed_dictionaries({
-            'rank': st.just(rank), 'length': st.integers(8, 64), 'dr': st.sampled_from([0.1, 0.05, 0.2, 0.25, 0.075]),
+            'rank': st.just(rank), 'length': st.integers(8, 64), # the unit of length is arbitrary: the same problem written in a much smaller or larger unit has dr (and 1/dk) of any size
+            'dr': st.sampled_from([0.1, 0.05, 0.2, 0.25, 0.075, 0.1, 2.0, 40.0, 500.0, 0.002]),
             'rho': st.lists(st.one_of(specs.logfloat(-2, 0.3, 4), specs.logfloat(-2, 0.3, 4), specs.logfloat(-12, -2, 4)), min_size=rank, max_size=rank),
             'dia': st.one_of(st.just([1.0] * rank), st.lists(st.sampled_from([1.0, 0.5, 1.5, 2.0, 0.8, 3.0]), min_size=rank, max_size=rank)),
             'kT': st.one_of(st.just(1.0), specs.logfloat(-0.5, 0.7, 4)),
